@@ -18,8 +18,8 @@
         that record, the OnCommit closures carry the objects they will cache;
       - account names, block hashes and imported account keys (xpubs) are
         interned numbers; times are unix seconds ([Z]); heights are [Z] (int32
-        wrap-around is outside the model); the manager itself is not
-        watch-only.  Accounts are of two kinds, as in the database: default
+        wrap-around is outside the model); the manager itself is
+        watching-only only after [ConvertToWatchingOnly].  Accounts are of two kinds, as in the database: default
         (derived from the wallet's seed) and watch-only (an imported xpub with
         a master-key fingerprint and an optional address-schema override,
         [NewAccountWatchingOnly]);
@@ -132,6 +132,7 @@ Record disk := {
   d_bdayblock : option stamp;
   d_bdayverified : bool;
   d_schema : N * N;              (* scope-schema: external, internal address type of the scope *)
+  d_watch : bool;                (* main/watchonly: the manager was converted to watching-only *)
 }.
 
 (** ** Memory *)
@@ -155,46 +156,51 @@ Record mem := {
   m_birthday : Z;                (* Manager.birthday *)
   m_locked : bool;               (* Manager.locked *)
   m_pending : list N;            (* ScopedKeyManager.deriveOnUnlock, as the accounts of its entries *)
+  m_watch : bool;                (* Manager.watchingOnly *)
 }.
 
 Definition set_d_accts (v : _) (d : disk) : disk :=
-  {| d_accts := v; d_nameidx := d_nameidx d; d_ididx := d_ididx d; d_lastacct := d_lastacct d; d_addrs := d_addrs d; d_used := d_used d; d_synced := d_synced d; d_hashes := d_hashes d; d_start := d_start d; d_birthday := d_birthday d; d_bdayblock := d_bdayblock d; d_bdayverified := d_bdayverified d; d_schema := d_schema d |}.
+  {| d_accts := v; d_nameidx := d_nameidx d; d_ididx := d_ididx d; d_lastacct := d_lastacct d; d_addrs := d_addrs d; d_used := d_used d; d_synced := d_synced d; d_hashes := d_hashes d; d_start := d_start d; d_birthday := d_birthday d; d_bdayblock := d_bdayblock d; d_bdayverified := d_bdayverified d; d_schema := d_schema d; d_watch := d_watch d |}.
 Definition set_d_nameidx (v : _) (d : disk) : disk :=
-  {| d_accts := d_accts d; d_nameidx := v; d_ididx := d_ididx d; d_lastacct := d_lastacct d; d_addrs := d_addrs d; d_used := d_used d; d_synced := d_synced d; d_hashes := d_hashes d; d_start := d_start d; d_birthday := d_birthday d; d_bdayblock := d_bdayblock d; d_bdayverified := d_bdayverified d; d_schema := d_schema d |}.
+  {| d_accts := d_accts d; d_nameidx := v; d_ididx := d_ididx d; d_lastacct := d_lastacct d; d_addrs := d_addrs d; d_used := d_used d; d_synced := d_synced d; d_hashes := d_hashes d; d_start := d_start d; d_birthday := d_birthday d; d_bdayblock := d_bdayblock d; d_bdayverified := d_bdayverified d; d_schema := d_schema d; d_watch := d_watch d |}.
 Definition set_d_ididx (v : _) (d : disk) : disk :=
-  {| d_accts := d_accts d; d_nameidx := d_nameidx d; d_ididx := v; d_lastacct := d_lastacct d; d_addrs := d_addrs d; d_used := d_used d; d_synced := d_synced d; d_hashes := d_hashes d; d_start := d_start d; d_birthday := d_birthday d; d_bdayblock := d_bdayblock d; d_bdayverified := d_bdayverified d; d_schema := d_schema d |}.
+  {| d_accts := d_accts d; d_nameidx := d_nameidx d; d_ididx := v; d_lastacct := d_lastacct d; d_addrs := d_addrs d; d_used := d_used d; d_synced := d_synced d; d_hashes := d_hashes d; d_start := d_start d; d_birthday := d_birthday d; d_bdayblock := d_bdayblock d; d_bdayverified := d_bdayverified d; d_schema := d_schema d; d_watch := d_watch d |}.
 Definition set_d_lastacct (v : _) (d : disk) : disk :=
-  {| d_accts := d_accts d; d_nameidx := d_nameidx d; d_ididx := d_ididx d; d_lastacct := v; d_addrs := d_addrs d; d_used := d_used d; d_synced := d_synced d; d_hashes := d_hashes d; d_start := d_start d; d_birthday := d_birthday d; d_bdayblock := d_bdayblock d; d_bdayverified := d_bdayverified d; d_schema := d_schema d |}.
+  {| d_accts := d_accts d; d_nameidx := d_nameidx d; d_ididx := d_ididx d; d_lastacct := v; d_addrs := d_addrs d; d_used := d_used d; d_synced := d_synced d; d_hashes := d_hashes d; d_start := d_start d; d_birthday := d_birthday d; d_bdayblock := d_bdayblock d; d_bdayverified := d_bdayverified d; d_schema := d_schema d; d_watch := d_watch d |}.
 Definition set_d_addrs (v : _) (d : disk) : disk :=
-  {| d_accts := d_accts d; d_nameidx := d_nameidx d; d_ididx := d_ididx d; d_lastacct := d_lastacct d; d_addrs := v; d_used := d_used d; d_synced := d_synced d; d_hashes := d_hashes d; d_start := d_start d; d_birthday := d_birthday d; d_bdayblock := d_bdayblock d; d_bdayverified := d_bdayverified d; d_schema := d_schema d |}.
+  {| d_accts := d_accts d; d_nameidx := d_nameidx d; d_ididx := d_ididx d; d_lastacct := d_lastacct d; d_addrs := v; d_used := d_used d; d_synced := d_synced d; d_hashes := d_hashes d; d_start := d_start d; d_birthday := d_birthday d; d_bdayblock := d_bdayblock d; d_bdayverified := d_bdayverified d; d_schema := d_schema d; d_watch := d_watch d |}.
 Definition set_d_used (v : _) (d : disk) : disk :=
-  {| d_accts := d_accts d; d_nameidx := d_nameidx d; d_ididx := d_ididx d; d_lastacct := d_lastacct d; d_addrs := d_addrs d; d_used := v; d_synced := d_synced d; d_hashes := d_hashes d; d_start := d_start d; d_birthday := d_birthday d; d_bdayblock := d_bdayblock d; d_bdayverified := d_bdayverified d; d_schema := d_schema d |}.
+  {| d_accts := d_accts d; d_nameidx := d_nameidx d; d_ididx := d_ididx d; d_lastacct := d_lastacct d; d_addrs := d_addrs d; d_used := v; d_synced := d_synced d; d_hashes := d_hashes d; d_start := d_start d; d_birthday := d_birthday d; d_bdayblock := d_bdayblock d; d_bdayverified := d_bdayverified d; d_schema := d_schema d; d_watch := d_watch d |}.
 Definition set_d_synced (v : _) (d : disk) : disk :=
-  {| d_accts := d_accts d; d_nameidx := d_nameidx d; d_ididx := d_ididx d; d_lastacct := d_lastacct d; d_addrs := d_addrs d; d_used := d_used d; d_synced := v; d_hashes := d_hashes d; d_start := d_start d; d_birthday := d_birthday d; d_bdayblock := d_bdayblock d; d_bdayverified := d_bdayverified d; d_schema := d_schema d |}.
+  {| d_accts := d_accts d; d_nameidx := d_nameidx d; d_ididx := d_ididx d; d_lastacct := d_lastacct d; d_addrs := d_addrs d; d_used := d_used d; d_synced := v; d_hashes := d_hashes d; d_start := d_start d; d_birthday := d_birthday d; d_bdayblock := d_bdayblock d; d_bdayverified := d_bdayverified d; d_schema := d_schema d; d_watch := d_watch d |}.
 Definition set_d_hashes (v : _) (d : disk) : disk :=
-  {| d_accts := d_accts d; d_nameidx := d_nameidx d; d_ididx := d_ididx d; d_lastacct := d_lastacct d; d_addrs := d_addrs d; d_used := d_used d; d_synced := d_synced d; d_hashes := v; d_start := d_start d; d_birthday := d_birthday d; d_bdayblock := d_bdayblock d; d_bdayverified := d_bdayverified d; d_schema := d_schema d |}.
+  {| d_accts := d_accts d; d_nameidx := d_nameidx d; d_ididx := d_ididx d; d_lastacct := d_lastacct d; d_addrs := d_addrs d; d_used := d_used d; d_synced := d_synced d; d_hashes := v; d_start := d_start d; d_birthday := d_birthday d; d_bdayblock := d_bdayblock d; d_bdayverified := d_bdayverified d; d_schema := d_schema d; d_watch := d_watch d |}.
 Definition set_d_start (v : _) (d : disk) : disk :=
-  {| d_accts := d_accts d; d_nameidx := d_nameidx d; d_ididx := d_ididx d; d_lastacct := d_lastacct d; d_addrs := d_addrs d; d_used := d_used d; d_synced := d_synced d; d_hashes := d_hashes d; d_start := v; d_birthday := d_birthday d; d_bdayblock := d_bdayblock d; d_bdayverified := d_bdayverified d; d_schema := d_schema d |}.
+  {| d_accts := d_accts d; d_nameidx := d_nameidx d; d_ididx := d_ididx d; d_lastacct := d_lastacct d; d_addrs := d_addrs d; d_used := d_used d; d_synced := d_synced d; d_hashes := d_hashes d; d_start := v; d_birthday := d_birthday d; d_bdayblock := d_bdayblock d; d_bdayverified := d_bdayverified d; d_schema := d_schema d; d_watch := d_watch d |}.
 Definition set_d_birthday (v : _) (d : disk) : disk :=
-  {| d_accts := d_accts d; d_nameidx := d_nameidx d; d_ididx := d_ididx d; d_lastacct := d_lastacct d; d_addrs := d_addrs d; d_used := d_used d; d_synced := d_synced d; d_hashes := d_hashes d; d_start := d_start d; d_birthday := v; d_bdayblock := d_bdayblock d; d_bdayverified := d_bdayverified d; d_schema := d_schema d |}.
+  {| d_accts := d_accts d; d_nameidx := d_nameidx d; d_ididx := d_ididx d; d_lastacct := d_lastacct d; d_addrs := d_addrs d; d_used := d_used d; d_synced := d_synced d; d_hashes := d_hashes d; d_start := d_start d; d_birthday := v; d_bdayblock := d_bdayblock d; d_bdayverified := d_bdayverified d; d_schema := d_schema d; d_watch := d_watch d |}.
 Definition set_d_bdayblock (v : _) (d : disk) : disk :=
-  {| d_accts := d_accts d; d_nameidx := d_nameidx d; d_ididx := d_ididx d; d_lastacct := d_lastacct d; d_addrs := d_addrs d; d_used := d_used d; d_synced := d_synced d; d_hashes := d_hashes d; d_start := d_start d; d_birthday := d_birthday d; d_bdayblock := v; d_bdayverified := d_bdayverified d; d_schema := d_schema d |}.
+  {| d_accts := d_accts d; d_nameidx := d_nameidx d; d_ididx := d_ididx d; d_lastacct := d_lastacct d; d_addrs := d_addrs d; d_used := d_used d; d_synced := d_synced d; d_hashes := d_hashes d; d_start := d_start d; d_birthday := d_birthday d; d_bdayblock := v; d_bdayverified := d_bdayverified d; d_schema := d_schema d; d_watch := d_watch d |}.
 Definition set_d_bdayverified (v : _) (d : disk) : disk :=
-  {| d_accts := d_accts d; d_nameidx := d_nameidx d; d_ididx := d_ididx d; d_lastacct := d_lastacct d; d_addrs := d_addrs d; d_used := d_used d; d_synced := d_synced d; d_hashes := d_hashes d; d_start := d_start d; d_birthday := d_birthday d; d_bdayblock := d_bdayblock d; d_bdayverified := v; d_schema := d_schema d |}.
+  {| d_accts := d_accts d; d_nameidx := d_nameidx d; d_ididx := d_ididx d; d_lastacct := d_lastacct d; d_addrs := d_addrs d; d_used := d_used d; d_synced := d_synced d; d_hashes := d_hashes d; d_start := d_start d; d_birthday := d_birthday d; d_bdayblock := d_bdayblock d; d_bdayverified := v; d_schema := d_schema d; d_watch := d_watch d |}.
+Definition set_d_watch (v : _) (d : disk) : disk :=
+  {| d_accts := d_accts d; d_nameidx := d_nameidx d; d_ididx := d_ididx d; d_lastacct := d_lastacct d; d_addrs := d_addrs d; d_used := d_used d; d_synced := d_synced d; d_hashes := d_hashes d; d_start := d_start d; d_birthday := d_birthday d; d_bdayblock := d_bdayblock d; d_bdayverified := d_bdayverified d; d_schema := d_schema d; d_watch := v |}.
 Definition set_m_accts (v : _) (m : mem) : mem :=
-  {| m_accts := v; m_addrs := m_addrs m; m_synced := m_synced m; m_start := m_start m; m_birthday := m_birthday m; m_locked := m_locked m; m_pending := m_pending m |}.
+  {| m_accts := v; m_addrs := m_addrs m; m_synced := m_synced m; m_start := m_start m; m_birthday := m_birthday m; m_locked := m_locked m; m_pending := m_pending m; m_watch := m_watch m |}.
 Definition set_m_addrs (v : _) (m : mem) : mem :=
-  {| m_accts := m_accts m; m_addrs := v; m_synced := m_synced m; m_start := m_start m; m_birthday := m_birthday m; m_locked := m_locked m; m_pending := m_pending m |}.
+  {| m_accts := m_accts m; m_addrs := v; m_synced := m_synced m; m_start := m_start m; m_birthday := m_birthday m; m_locked := m_locked m; m_pending := m_pending m; m_watch := m_watch m |}.
 Definition set_m_synced (v : _) (m : mem) : mem :=
-  {| m_accts := m_accts m; m_addrs := m_addrs m; m_synced := v; m_start := m_start m; m_birthday := m_birthday m; m_locked := m_locked m; m_pending := m_pending m |}.
+  {| m_accts := m_accts m; m_addrs := m_addrs m; m_synced := v; m_start := m_start m; m_birthday := m_birthday m; m_locked := m_locked m; m_pending := m_pending m; m_watch := m_watch m |}.
 Definition set_m_start (v : _) (m : mem) : mem :=
-  {| m_accts := m_accts m; m_addrs := m_addrs m; m_synced := m_synced m; m_start := v; m_birthday := m_birthday m; m_locked := m_locked m; m_pending := m_pending m |}.
+  {| m_accts := m_accts m; m_addrs := m_addrs m; m_synced := m_synced m; m_start := v; m_birthday := m_birthday m; m_locked := m_locked m; m_pending := m_pending m; m_watch := m_watch m |}.
 Definition set_m_birthday (v : _) (m : mem) : mem :=
-  {| m_accts := m_accts m; m_addrs := m_addrs m; m_synced := m_synced m; m_start := m_start m; m_birthday := v; m_locked := m_locked m; m_pending := m_pending m |}.
+  {| m_accts := m_accts m; m_addrs := m_addrs m; m_synced := m_synced m; m_start := m_start m; m_birthday := v; m_locked := m_locked m; m_pending := m_pending m; m_watch := m_watch m |}.
 Definition set_m_locked (v : _) (m : mem) : mem :=
-  {| m_accts := m_accts m; m_addrs := m_addrs m; m_synced := m_synced m; m_start := m_start m; m_birthday := m_birthday m; m_locked := v; m_pending := m_pending m |}.
+  {| m_accts := m_accts m; m_addrs := m_addrs m; m_synced := m_synced m; m_start := m_start m; m_birthday := m_birthday m; m_locked := v; m_pending := m_pending m; m_watch := m_watch m |}.
 Definition set_m_pending (v : _) (m : mem) : mem :=
-  {| m_accts := m_accts m; m_addrs := m_addrs m; m_synced := m_synced m; m_start := m_start m; m_birthday := m_birthday m; m_locked := m_locked m; m_pending := v |}.
+  {| m_accts := m_accts m; m_addrs := m_addrs m; m_synced := m_synced m; m_start := m_start m; m_birthday := m_birthday m; m_locked := m_locked m; m_pending := v; m_watch := m_watch m |}.
+Definition set_m_watch (v : _) (m : mem) : mem :=
+  {| m_accts := m_accts m; m_addrs := m_addrs m; m_synced := m_synced m; m_start := m_start m; m_birthday := m_birthday m; m_locked := m_locked m; m_pending := m_pending m; m_watch := v |}.
 
 Definition next_of (ai : acct_info) (b : bool) : N := if b then ai_int ai else ai_ext ai.
 Definition last_of (ai : acct_info) (b : bool) : N := if b then ai_lastint ai else ai_lastext ai.
@@ -227,7 +233,7 @@ Definition info_of_row (r : acct_row) : acct_info :=
 Definition reopen_as (l : bool) (d : disk) : mem :=
   {| m_accts := ∅; m_addrs := ∅; m_synced := d_synced d;
      m_start := {| s_height := (d_start d).1; s_hash := (d_start d).2; s_time := zero_time |};
-     m_birthday := d_birthday d; m_locked := l; m_pending := [] |}.
+     m_birthday := d_birthday d; m_locked := l; m_pending := []; m_watch := d_watch d |}.
 (** The manager a restart gives, brought to the lock state the running
     manager [m] is in. *)
 Definition restart (m : mem) (d : disk) : mem := reopen_as (m_locked m) d.
@@ -237,7 +243,7 @@ Definition restart (m : mem) (d : disk) : mem := reopen_as (m_locked m) d.
 Inductive err :=
   | EAccountNotFound | EDuplicateAccount | EInvalidAccount | ETooManyAddresses
   | EDuplicateAddress | EBlockNotFound | EAddressNotFound | EBirthdayBlockNotSet
-  | EDatabase | ELocked | EOther
+  | EDatabase | ELocked | EWatchingOnly | EOther
   | EPanic.   (* the call panicked; no operation of the model answers so *)
 Global Instance err_eq_dec : EqDecision err.
 Proof. solve_decision. Defined.
@@ -291,7 +297,8 @@ Inductive op :=
   | ONewAccountWO (nm : N) (w : wo)         (* NewAccountWatchingOnly(name, xpub, fingerprint, schema) *)
   | OLock                                   (* Manager.Lock *)
   | OUnlock                                 (* Manager.Unlock(ns, passphrase) *)
-  | OInvalidate (a : N).                    (* InvalidateAccountCache *)
+  | OInvalidate (a : N)                     (* InvalidateAccountCache *)
+  | OConvert.                               (* Manager.ConvertToWatchingOnly *)
 
 (** ** Reads.  A read may fill the caches; it never writes the database. *)
 
@@ -316,7 +323,7 @@ Definition has_priv (k : option wo) : bool := match k with None => true | Some _
 (** An address object built from a public key - while the manager is locked -
     of an account that has a private key joins [deriveOnUnlock]. *)
 Definition note_pending (k : option wo) (a : N) (m : mem) : mem :=
-  if m_locked m && has_priv k then set_m_pending (m_pending m ++ [a]) m else m.
+  if m_locked m && has_priv k && negb (m_watch m) then set_m_pending (m_pending m ++ [a]) m else m.
 
 (** [loadAccountInfo]: the cache first, else the row (and cache it, with its
     two last addresses). *)
@@ -371,13 +378,13 @@ Definition read (q : query) (d : disk) (m : mem) : mem * ans :=
       | None => (m1, AErr EAccountNotFound)
       end
   | QProps a =>
-      if (a =? imported_acct)%N then (m, AProps name_imported 0 0 (imported_count d) None false)
+      if (a =? imported_acct)%N then (m, AProps name_imported 0 0 (imported_count d) None (m_watch m))
       else
         let '(m1, o) := load_acct d m a in
         match o with
         | Some ai => (m1, AProps (ai_name ai) (ai_ext ai) (ai_int ai) 0 (ai_kind ai)
-                            (* IsWatchOnly: acctKeyPriv == nil - no private key, or locked *)
-                            (negb (has_priv (ai_kind ai)) || m_locked m))
+                            (* IsWatchOnly: the manager is, or acctKeyPriv == nil - no private key, or locked *)
+                            (negb (has_priv (ai_kind ai)) || m_locked m || m_watch m))
         | None => (m1, AErr EAccountNotFound)
         end
   | QLookupName nm =>
@@ -528,8 +535,14 @@ Fixpoint load_all (d : disk) (m : mem) (l : list N) : mem * bool :=
               match o with Some _ => load_all d m1 r | None => (m1, false) end
   end.
 
-Definition import_needs_unlock (x : addr) (priv : bool) : bool :=
-  match x with ImpScript _ => true | _ => priv end.
+(** A script needs the manager unlocked (a converted manager stays locked for
+    good); a private key does unless the manager is watching-only (only the
+    public key is kept then). *)
+Definition import_locked (x : addr) (priv : bool) (m : mem) : bool :=
+  match x with
+  | ImpScript _ => m_locked m
+  | _ => priv && m_locked m && negb (m_watch m)
+  end.
 
 Definition step (P : params) (o : op) (t : txst) : txst * ans :=
   let d := t_disk t in
@@ -538,7 +551,8 @@ Definition step (P : params) (o : op) (t : txst) : txst * ans :=
   match o with
   | ONewAccount nm =>
       (* NewAccount needs the coin-type private key *)
-      if m_locked m then (t, AErr ELocked) else new_account None nm t
+      if m_watch m then (t, AErr EWatchingOnly)
+      else if m_locked m then (t, AErr ELocked) else new_account None nm t
   | ONewAccountWO nm w => new_account (Some w) nm t
   | ORename a nm =>
       (* RenameAccount: rows first, then the cached name - at once ([p_re]) or
@@ -619,7 +633,7 @@ Definition step (P : params) (o : op) (t : txst) : txst * ans :=
          the manager unlocked; duplicate test against cache OR database; row
          written; cache entry and start block updated at once *)
       if negb (addr_imported x) then (t, AErr EOther)
-      else if import_needs_unlock x priv && m_locked m then (t, AErr ELocked)
+      else if import_locked x priv m then (t, AErr ELocked)
       else if bool_decide (is_Some (m_addrs m !! x)) || bool_decide (x ∈ d_addrs d) then (t, AErr EDuplicateAddress)
       else
         let upd := match bs with Some s => (s_height s <? s_height (m_start m))%Z | None => false end in
@@ -634,9 +648,11 @@ Definition step (P : params) (o : op) (t : txst) : txst * ans :=
       let '(m', r) := read q d m in (with_mem m', r)
   | OLock =>
       (* Lock: private keys wiped; nothing the queries report is dropped *)
-      if m_locked m then (t, AErr ELocked) else (with_mem (set_m_locked true m), AOk)
+      if m_watch m then (t, AErr EWatchingOnly)
+      else if m_locked m then (t, AErr ELocked) else (with_mem (set_m_locked true m), AOk)
   | OUnlock =>
-      if negb (m_locked m) then (t, AOk)
+      if m_watch m then (t, AErr EWatchingOnly)
+      else if negb (m_locked m) then (t, AOk)
       else
         let '(m1, ok) := load_all d m (m_pending m) in
         if ok then (with_mem (set_m_pending [] (set_m_locked false m1)), AOk)
@@ -644,6 +660,14 @@ Definition step (P : params) (o : op) (t : txst) : txst * ans :=
   | OInvalidate a =>
       (* InvalidateAccountCache: delete(s.acctInfo, account) *)
       (with_mem (set_m_accts (delete a (m_accts m)) m), AOk)
+  | OConvert =>
+      (* ConvertToWatchingOnly: the rows lose their private parts (account rows
+         keep name and next indices, address rows stay) and the watching-only
+         flag is stored; the manager is locked and marked watching-only at
+         once - before commit *)
+      if m_watch m then (t, AOk)
+      else ({| t_disk := set_d_watch true d; t_mem := set_m_watch true (set_m_locked true m);
+               t_cbs := t_cbs t; t_ncbs := t_ncbs t |}, AOk)
   end.
 
 (** Every error whose guard fires for the operation in this state.  Which of
@@ -658,7 +682,8 @@ Definition alts (o : op) (t : txst) : list err :=
   | ORename a nm =>
       (if (a =? imported_acct)%N then [EInvalidAccount] else []) ++ named nm ++
       (if bool_decide (d_accts d !! a = None) then [EAccountNotFound] else [])
-  | ONewAccount nm => (if m_locked (t_mem t) then [ELocked] else []) ++ named nm
+  | ONewAccount nm => (if m_watch (t_mem t) then [EWatchingOnly] else []) ++
+                      (if m_locked (t_mem t) then [ELocked] else []) ++ named nm
   | ONewAccountWO nm _ => named nm
   | _ => []
   end.
@@ -736,13 +761,13 @@ Definition created (sch : N * N) (genesis_hash : N) (genesis_time birthday : Z) 
      d_hashes := {[ 0%Z := genesis_hash ]};
      d_start := (0%Z, genesis_hash);
      d_birthday := birthday;
-     d_bdayblock := None; d_bdayverified := false; d_schema := sch |}.
+     d_bdayblock := None; d_bdayverified := false; d_schema := sch; d_watch := false |}.
 
 (** ** The trigger patterns K (decidable, on the history alone)
 
     An ABORTED transaction diverges memory from the database when it holds an
     operation that updates memory before commit: set-synced-to, set-birthday,
-    import, and - depending on the source, [params] - rename ([p_re]), extend
+    import, convert-to-watching-only, and - depending on the source, [params] - rename ([p_re]), extend
     ([p_ee]), address issuance ([p_rb]); or when it leaves in the account
     cache an entry built from an uncommitted row: it changed account rows (new
     account; a rename that defers its memory update; an eviction, after which
@@ -775,7 +800,7 @@ Fixpoint abort_k (P : params) (armed issued : bool) (taint : list N) (ops : list
   | [] => tainted taint
   | o :: r =>
       match o with
-      | OSetSynced _ | OSetSyncedNil | OSetBirthday _ | OImport _ _ _ => true
+      | OSetSynced _ | OSetSyncedNil | OSetBirthday _ | OImport _ _ _ | OConvert => true
       | ORename _ _ => p_re P || abort_k P true issued taint r
       | OExtend a _ _ => p_ee P || abort_k P armed true (taint_if armed a taint) r
       | ONext a _ _ => p_rb P || abort_k P armed true (taint_if armed a taint) r
